@@ -105,7 +105,8 @@ C13ReqDec(ty) ==
     [] ty = "streamerror" -> {"marshal/unmarshal", "tokenreader/decode", "trbytes/unmarshal", "writexml/unmarshal"}
     [] ty = "encode.pair" -> {"outer/marshal/unmarshal", "outer/session/unmarshal", "inner/marshal/unmarshal", "inner/session/unmarshal"}
 
-Symbols == [str |-> StrSym, jid |-> JidSym, time |-> TimeSym, int |-> IntSym, bytes |-> BytesSym]
+Symbols == [str |-> StrSym, jid |-> JidSym, time |-> TimeSym, int |-> IntSym, bytes |-> BytesSym,
+            long |-> LongSym, xtime |-> ExtTimeSym, maxtime |-> MaxTimeSeq]
 
 (* ================================================================== C19: the typed table *)
 (* For every extension payload type: the record of its leaf fields with the domain of  *)
@@ -119,8 +120,8 @@ Txt   == IF Quick THEN {"S_empty", "S_a", "S_xml", "S_uni", "S_ml"}
 NeTxt == Txt \ {"S_empty"}
 Txt3  == {"S_empty", "S_a", "S_xml"}
 Jids  == JidSyms
-(* every instant in every zone offset class (Stanza.tla) *)
-Times == DOMAIN TimeSym
+(* every instant in every zone offset class, and the extreme times (Stanza.tla) *)
+Times == AllTimes
 UInts == {"N_0", "N_1", "N_7", "N_max32", "N_max64"}
 Bools == BOOLEAN
 Opt(S) == {<<>>} \cup {<<x>> : x \in S}
@@ -163,8 +164,14 @@ FormFields == {
   Fld("text-single", "S_b", "S_empty", "S_empty", FALSE, <<"S_empty", "S_a">>, <<>>),
   Fld("text-single", "S_uni", "S_empty", "S_empty", FALSE, <<"S_a", "S_b">>, <<>>)}
 FormKinds == {"form", "result", "cancel"}
+(* two fields that share ONE var but differ in type: XEP-0004 asks for unique names, a peer can send them all the  *)
+(* same and the field constructors accept them; fields are positional in a form, so the round trip is the same  *)
+(* law (fields without options: the options of a field can only be looked up by name)                            *)
+DupVarPairs == {<<a, b>> \in FormFields \X FormFields : a.var = b.var /\ a.ft # b.ft /\ a.var \in {"S_a", "S_b"}
+                                                          /\ a.opts = <<>> /\ b.opts = <<>>}
 D_form == [kind |-> FormKinds, title |-> Txt \cup {"S_nl", "S_crlf"}, instr |-> Txt \cup {"S_nl", "S_crlf"},
-           fields |-> SeqsUpTo(FormFields, 1) \cup {<<a, b>> \in FormFields \X FormFields : a.var # b.var /\ {a.var, b.var} \subseteq {"S_a", "S_b", "S_ftype"}}]
+           fields |-> SeqsUpTo(FormFields, 1) \cup {<<a, b>> \in FormFields \X FormFields : a.var # b.var /\ {a.var, b.var} \subseteq {"S_a", "S_b", "S_ftype"}}
+                      \cup DupVarPairs]
 (* form.Cancel(title, instructions) builds a form without fields *)
 V_form == {v \in Enum(D_form, [kind |-> "form", title |-> "S_a", instr |-> "S_empty", fields |-> <<>>]) :
              v.kind = "cancel" => v.fields = <<>>}
@@ -187,8 +194,30 @@ SplitLines(c, cur) == IF c = <<>> THEN <<cur>>
                       ELSE IF IsNL(c[1]) THEN <<cur>> \o SplitLines(Tail(c), <<>>) ELSE SplitLines(Tail(c), Append(cur, c[1]))
 RECURSIVE JoinNL(_)
 JoinNL(ls) == IF ls = <<>> THEN <<>> ELSE IF Len(ls) = 1 THEN ls[1] ELSE ls[1] \o <<10>> \o JoinNL(Tail(ls))
-InstrNorm(sy) == SymOf(JoinNL(SelectSeq(SplitLines(Cps(sy), <<>>), LAMBDA l : l # <<>>)))
-TitleNorm(sy) == SymOf(ReplNL(Cps(sy)))
+(* long texts (Stanza.tla LongSym) are never written out: their lines are symbols *)
+IsLong(sy) == sy \in DOMAIN LongSym
+Known(sy) == sy \in DOMAIN StrSym \/ IsLong(sy)
+HasSym(c) == \E n \in DOMAIN StrSym : StrSym[n] = c
+RECURSIVE JoinCps(_, _)
+JoinCps(ls, sep) == IF ls = <<>> THEN <<>> ELSE IF Len(ls) = 1 THEN ls[1] ELSE ls[1] \o <<sep>> \o JoinCps(Tail(ls), sep)
+(* the lines of a text, each named by its symbol (a text that ends in a newline has a last, empty line) *)
+LineSyms(sy) == IF IsLong(sy)
+                  THEN (IF LongSym[sy].kind = "lines" /\ LongSym[sy].sep = 10 THEN LongSym[sy].lines ELSE <<sy>>)
+                  ELSE LET ls == SplitLines(Cps(sy), <<>>) IN [i \in 1..Len(ls) |-> SymOf(ls[i])]
+(* the symbol of the texts ls joined by the separator sep; "S_undefined" if the table has no name for it *)
+JoinSyms(ls, sep) ==
+  IF ls = <<>> THEN "S_empty" ELSE IF Len(ls) = 1 THEN ls[1]
+  ELSE IF \A i \in 1..Len(ls) : ls[i] \in DOMAIN StrSym
+         THEN LET c == JoinCps([i \in 1..Len(ls) |-> Cps(ls[i])], sep)
+                  m == {n \in DOMAIN StrSym : Len(StrSym[n]) = Len(c) /\ StrSym[n] = c}
+              IN IF m = {} THEN "S_undefined" ELSE CHOOSE n \in m : TRUE
+  ELSE IF \E n \in DOMAIN LongSym : LongSym[n].kind = "lines" /\ LongSym[n].lines = ls /\ LongSym[n].sep = sep
+         THEN CHOOSE n \in DOMAIN LongSym : LongSym[n].kind = "lines" /\ LongSym[n].lines = ls /\ LongSym[n].sep = sep
+         ELSE "S_undefined"
+InstrNorm(sy) == IF IsLong(sy) THEN JoinSyms(SelectSeq(LineSyms(sy), LAMBDA l : l # "S_empty"), 10)
+                 ELSE SymOf(JoinNL(SelectSeq(SplitLines(Cps(sy), <<>>), LAMBDA l : l # <<>>)))
+TitleNorm(sy) == IF IsLong(sy) THEN (IF Len(LineSyms(sy)) > 1 THEN JoinSyms(LineSyms(sy), 32) ELSE sy)
+                 ELSE SymOf(ReplNL(Cps(sy)))
 MultiTypes == {"list-multi", "jid-multi", "text-multi"}
 (* per the package's own documentation (form.Value: "Fields of type ListMulti, JidMulti, TextMulti, and Hidden *)
 (* may contain more than one Value; all other field types will only use the first Value") and XEP-0004 3.3      *)
@@ -221,6 +250,8 @@ D_pagingset == [first |-> Txt, index |-> Opt(UInts), last |-> Txt, count |-> Opt
 D_delay == [from |-> Jids, time |-> Times, reason |-> Txt]
 D_xtime == [time |-> Times]
 D_forward == [from |-> {"J_zero", "J_fullx"}, time |-> Times, reason |-> Txt3, pl |-> Payloads]
+(* forward.Wrap(message, body, received, stanza): the package level constructor takes the body and the time itself *)
+D_forwardwrap == [body |-> Txt3, time |-> Times, pl |-> {"P_none", "P_text"}]
 D_carbons == [kind |-> {"sent", "received"}, from |-> {"J_zero", "J_fullx"}, time |-> Times, reason |-> Txt3, pl |-> Payloads \ {"P_none"}]
 D_requested == [req |-> Bools]
 D_unstyled == [value |-> Bools]
@@ -263,7 +294,14 @@ D_command == [jid |-> Jids, action |-> Txt3, name |-> Txt, node |-> Txt, sid |->
 D_actions == [bits |-> {"N_0", "N_1", "N_2", "N_3", "N_4", "N_7", "N_9", "N_17", "N_36", "N_39"}]
 D_response == [iq |-> SmallIQs, node |-> Txt3, sid |-> Txt3, status |-> Txt3]
 
-Base(doms) == [f \in DOMAIN doms |-> CHOOSE x \in doms[f] : TRUE]
+(* the base value of a field: any element of its domain; for the time fields an ordinary time (the choice must *)
+(* not depend on how many extreme times the table holds)                                                       *)
+TimeFieldNames == {"time", "date", "start", "end"}
+Base(doms) == [f \in DOMAIN doms |-> IF f \in TimeFieldNames THEN "T_zero" ELSE CHOOSE x \in doms[f] : TRUE]
+(* a second base value that differs from the first in every field that has two values *)
+Base2(doms) == [f \in DOMAIN doms |-> IF f \in TimeFieldNames THEN "T_east"
+                                        ELSE IF \E x \in doms[f] : x # Base(doms)[f]
+                                               THEN CHOOSE x \in doms[f] : x # Base(doms)[f] ELSE Base(doms)[f]]
 Dom(ty) ==
   CASE ty = "disco.infoquery" -> D_discoinfoquery [] ty = "disco.itemsquery" -> D_discoinfoquery
     [] ty = "disco.identity" -> D_discoidentity [] ty = "disco.feature" -> D_discofeature
@@ -272,7 +310,7 @@ Dom(ty) ==
     [] ty = "paging.requestindex" -> D_requestindex [] ty = "paging.requestcount" -> D_requestcount
     [] ty = "paging.set" -> D_pagingset
     [] ty = "delay" -> D_delay [] ty = "stanza.delay" -> D_delay [] ty = "xtime" -> D_xtime
-    [] ty = "forward" -> D_forward [] ty = "carbons" -> D_carbons
+    [] ty = "forward" -> D_forward [] ty = "carbons" -> D_carbons [] ty = "forward.wrap" -> D_forwardwrap
     [] ty = "receipts.requested" -> D_requested [] ty = "styling.unstyled" -> D_unstyled
     [] ty = "roster.item" -> D_rosteritem [] ty = "roster.iq" -> D_rosteriq
     [] ty = "blocklist.item" -> D_blockitem [] ty = "bookmarks.channel" -> D_bookmark
@@ -289,7 +327,7 @@ Dom(ty) ==
     [] ty = "form" -> D_form
 C19Types == {"form", "disco.infoquery", "disco.itemsquery", "disco.identity", "disco.feature", "disco.item", "disco.caps",
   "disco.info", "paging.requestnext", "paging.requestprev", "paging.requestindex", "paging.requestcount", "paging.set",
-  "delay", "stanza.delay", "xtime", "forward", "carbons", "receipts.requested", "styling.unstyled", "roster.item",
+  "delay", "stanza.delay", "xtime", "forward", "forward.wrap", "carbons", "receipts.requested", "styling.unstyled", "roster.item",
   "roster.iq", "blocklist.item", "bookmarks.channel", "muc.item", "muc.invitation", "oob.data", "oob.query", "oob.iq",
   "version.query", "upload.file", "upload.slot", "bin.data", "file.meta", "crypto.hash", "crypto.hashoutput",
   "crypto.key", "crypto.ownedkeys", "crypto.trustmessage", "history.query", "history.result", "commands.command",
@@ -303,15 +341,60 @@ Admit(ty, v) ==
     \* bin.Data: "NoCache" is max-age=0, the same wire value as no lifetime at all
     [] ty = "bin.data" -> (v.nocache => v.maxage = "N_0")
     [] OTHER -> TRUE
-C19Values(ty) == {v \in Enum(Dom(ty), Base(Dom(ty))) : Admit(ty, v)}
+(* ---- the LENGTH dimension of text: every free-text slot of every type carries each long text of LongFor(slot), *)
+(* the other fields at a base value (a star around the base: lengths are not crossed with one another)            *)
+LongFields(ty) ==
+  CASE ty \in {"disco.infoquery", "disco.itemsquery"} -> {"node"} [] ty = "disco.identity" -> {"cat", "type", "name"}
+    [] ty = "disco.feature" -> {"var"} [] ty = "disco.item" -> {"name", "node"} [] ty = "disco.caps" -> {"node", "ver"}
+    [] ty = "disco.info" -> {"node"}
+    [] ty = "paging.requestnext" -> {"after"} [] ty = "paging.requestprev" -> {"before"} [] ty = "paging.set" -> {"first", "last"}
+    [] ty \in {"delay", "stanza.delay", "forward", "carbons"} -> {"reason"} [] ty = "forward.wrap" -> {"body"}
+    [] ty = "roster.item" -> {"name", "sub"} [] ty = "roster.iq" -> {"ver"} [] ty = "blocklist.item" -> {"text"}
+    [] ty = "bookmarks.channel" -> {"name", "nick", "password"} [] ty = "muc.item" -> {"nick", "reason"}
+    [] ty = "muc.invitation" -> {"password", "reason", "thread"}
+    [] ty \in {"oob.data", "oob.query"} -> {"url", "desc"} [] ty = "oob.iq" -> {"url", "desc"}
+    [] ty = "version.query" -> {"name", "version", "os"} [] ty = "upload.file" -> {"name", "type"}
+    [] ty = "bin.data" -> {"cid", "type"} [] ty = "file.meta" -> {"mediatype", "name"}
+    [] ty = "crypto.trustmessage" -> {"usage", "enc"}
+    [] ty = "history.query" -> {"id", "beforeid", "afterid", "pageid"}
+    [] ty = "commands.command" -> {"action", "name", "node", "sid"} [] ty = "commands.response" -> {"node", "sid", "status"}
+    [] OTHER -> {}
+(* slots that carry every length class in the quick tier (one per way a text reaches the wire: character data, *)
+(* attribute, child written by hand, child written by struct tags, a form value inside another payload ...)      *)
+RepSlots == {<<"delay", "reason">>, <<"forward.wrap", "body">>, <<"oob.data", "desc">>, <<"roster.item", "name">>,
+             <<"muc.invitation", "reason">>, <<"history.query", "afterid">>, <<"bookmarks.channel", "password">>}
+LongFor(ty, f) == IF ~Quick THEN LongAll \cup {"L_1000x", "L_a_65536_b_sp"}
+                  ELSE IF <<ty, f>> \in RepSlots THEN LongAll ELSE LongAtoms4k \cup {"L_65536"}
+LongBase(ty, f, l) == LET d == Dom(ty)  b2 == [Base2(d) EXCEPT ![f] = l]  b1 == [Base(d) EXCEPT ![f] = l]
+                      IN IF Admit(ty, b2) THEN {b2} ELSE IF Admit(ty, b1) THEN {b1} ELSE {}
+(* a data form: instructions (one element per line), title (newlines become blanks), and every text slot of a field *)
+TitleLongs == {l \in LongAtoms4k \cup LongAtoms64k \cup {"L_a_65536_b"} : TitleNorm(l) # "S_undefined"}
+InstrLongs == {l \in LongAll : InstrNorm(l) # "S_undefined"}
+FieldLongs == IF Quick THEN {"L_4096", "L_65535", "L_65536", "L_65537", "L_a_65536_b"} ELSE LongAll
+LongFormFields(l) == {
+  Fld("text-single", "S_a", l, "S_empty", FALSE, <<"S_a">>, <<>>),                       \* label
+  Fld("text-single", "S_a", "S_empty", l, FALSE, <<"S_a">>, <<>>),                       \* desc
+  Fld("text-single", l, "S_empty", "S_empty", FALSE, <<"S_a">>, <<>>),                   \* var
+  Fld("text-single", "S_a", "S_empty", "S_empty", TRUE, <<l>>, <<>>),                    \* the value of a single-valued field
+  Fld("text-multi", "S_a", "S_empty", "S_empty", FALSE, <<"S_a", l, "S_b">>, <<>>),      \* one value (line) among others
+  Fld("text-multi", "S_a", "S_empty", "S_empty", FALSE, <<l>>, <<>>),
+  Fld("list-multi", "S_a", "S_empty", "S_empty", FALSE, <<l, "S_a">>, <<Op(l, "S_a"), Op("S_uni", l)>>),   \* list value, option label, option value
+  Fld("hidden", "S_a", "S_empty", "S_empty", FALSE, <<"S_a", l>>, <<>>),
+  Fld("fixed", "S_empty", "S_empty", "S_empty", FALSE, <<l>>, <<>>)}
+LongFormValues ==
+  {[kind |-> k, title |-> "S_a", instr |-> l, fields |-> <<>>] : k \in FormKinds, l \in InstrLongs}
+  \cup {[kind |-> k, title |-> l, instr |-> "S_empty", fields |-> <<>>] : k \in {"form", "cancel"}, l \in TitleLongs}
+  \cup UNION {{[kind |-> "form", title |-> "S_empty", instr |-> "S_empty", fields |-> <<f>>] : f \in LongFormFields(l)} : l \in FieldLongs}
+LongValues(ty) == IF ty = "form" THEN LongFormValues
+                  ELSE UNION {UNION {LongBase(ty, f, l) : l \in LongFor(ty, f)} : f \in LongFields(ty)}
+C19Values(ty) == {v \in Enum(Dom(ty), Base(Dom(ty))) : Admit(ty, v)} \cup LongValues(ty)
 
 RECURSIVE SeqNorms2(_)
 SeqNorms2(fs) == IF fs = <<>> THEN {<<>>} ELSE {<<h>> \o t : h \in FormNorms(fs[1]), t \in SeqNorms2(Tail(fs))}
 Perms(sq) == {p \in [1..Len(sq) -> SeqSet(sq)] : \A x \in SeqSet(sq) : Cardinality({i \in 1..Len(sq) : sq[i] = x}) = Cardinality({i \in 1..Len(sq) : p[i] = x})}
-OffsetOf(t) == TimeSym[t][3]
 (* XEP-0082 recommends UTC on the wire and a decoder may return any zone: a time field is the  *)
 (* INSTANT (the zone offset is part of the value only where the type carries it: xtime)        *)
-TimeFields(ty) == CASE ty \in {"delay", "stanza.delay", "forward", "carbons", "xtime"} -> {"time"}
+TimeFields(ty) == CASE ty \in {"delay", "stanza.delay", "forward", "forward.wrap", "carbons", "xtime"} -> {"time"}
                     [] ty = "file.meta" -> {"date"}
                     [] ty = "history.query" -> {"start", "end"}
                     [] OTHER -> {}
@@ -340,9 +423,7 @@ Shapes == {"same", "absent", "empty", "bare", "noattrs", "text", "attr-empty", "
            "attr-negative", "text-empty", "text-nonnumeric", "text-overflow", "child-unexpected", "nested-copy",
            "wrong-ns", "child-wrong-ns", "child-dropped", "child-emptied", "child-doubled", "text-first", "comment-first"}
 ShapeKs == 0..2
-DecodableTypes == (C19Types \ {"commands.response", "carbons"}) \cup {"stanzaerror", "streamerror"}
-Base2(doms) == [f \in DOMAIN doms |-> IF \E x \in doms[f] : x # Base(doms)[f]
-                                        THEN CHOOSE x \in doms[f] : x # Base(doms)[f] ELSE Base(doms)[f]]
+DecodableTypes == (C19Types \ {"commands.response", "carbons", "forward.wrap"}) \cup {"stanzaerror", "streamerror"}
 ShapeBases(ty) ==
   CASE ty = "stanzaerror" -> HelpErrors
     [] ty = "streamerror" -> {[err |-> "host-gone", texts |-> <<>>, content |-> "S_empty", app |-> NoApp],
@@ -370,37 +451,61 @@ ReusePairsOf(ty) ==
        IN {p \in same \cup (star \X ReuseBases(ty)) \cup (ReuseBases(ty) \X star) : Admit(ty, p[1]) /\ Admit(ty, p[2])}
 ReuseValues == UNION {{[ty |-> t, a |-> p[1], b |-> p[2]] : p \in ReusePairsOf(t)} : t \in DecodableTypes}
 C19All == C19Types \cup {"shape", "reuse"}
+(* The same scenario for the core types of C13, with values that make ALIASING visible: a decoded value that the *)
+(* application copied (by assignment) must keep denoting what it was decoded from when something else is decoded *)
+(* into the variable afterwards and when values are encoded - errors with 0, 1, 2 and 3 texts that all differ,   *)
+(* every ordered pair of them (fewer / as many / more texts in the second document), stanzas that differ in      *)
+(* every attribute.                                                                                              *)
+ReuseCoreTypes == {"iq", "message", "presence", "stanzaerror", "streamerror"}
+ReuseTextLists == <<<<>>, <<P("S_en", "S_xml")>>, <<P("S_en", "S_uni"), P("S_de", "S_ml")>>,
+                    <<P("S_empty", "S_a"), P("S_en", "S_ml"), P("S_de", "S_xml")>>>>
+ReuseCoreVals(ty) ==
+  CASE ty = "streamerror" ->
+         {[err |-> IF i % 2 = 0 THEN "host-gone" ELSE "see-other-host", texts |-> ReuseTextLists[i],
+           content |-> IF i % 2 = 0 THEN "S_empty" ELSE "S_a", app |-> NoApp] : i \in 1..Len(ReuseTextLists)}
+    [] ty = "stanzaerror" ->
+         {[by |-> IF i % 2 = 0 THEN "J_zero" ELSE "J_fullx", type |-> IF i % 2 = 0 THEN "cancel" ELSE "wait",
+           cond |-> IF i % 2 = 0 THEN "item-not-found" ELSE "undefined-condition", texts |-> SeqSet(ReuseTextLists[i]),
+           app |-> PlainApp] : i \in 1..Len(ReuseTextLists)}
+    [] OTHER ->
+         {[ns |-> "jabber:client", id |-> "S_a", to |-> "J_bare", from |-> "J_full", lang |-> "S_en", type |-> "error"],
+          [ns |-> "jabber:server", id |-> "S_xml", to |-> "J_fullx", from |-> "J_zero", lang |-> "S_empty",
+           type |-> CHOOSE t \in Types(ty) : t \notin {"error", ""}],
+          [ns |-> "jabber:client", id |-> "S_empty", to |-> "J_zero", from |-> "J_zero", lang |-> "S_empty", type |-> "error"]}
+ReuseCoreValues == UNION {{[ty |-> t, a |-> x, b |-> y] : x, y \in ReuseCoreVals(t)} : t \in ReuseCoreTypes}
+IsReuse(ty) == ty \in {"reuse", "reuse.core"}
 
 (* ------------------------------------------------------------------ dispatch *)
-KnownTypes          == C13Types \cup C19Types \cup {"shape", "reuse"}
+KnownTypes          == C13Types \cup C19Types \cup {"shape", "reuse", "reuse.core"}
 Values(ty)          == IF ty \in C13Types THEN C13Values(ty) ELSE IF ty = "shape" THEN ShapeValues
-                       ELSE IF ty = "reuse" THEN ReuseValues ELSE C19Values(ty)
+                       ELSE IF ty = "reuse" THEN ReuseValues ELSE IF ty = "reuse.core" THEN ReuseCoreValues ELSE C19Values(ty)
 AbsV(ty, v)         == IF ty \in C13Types THEN C13AbsV(ty, v) ELSE v
 AbsD(ty, exp, val)  == IF ty \in C13Types THEN C13AbsD(ty, exp, val) ELSE val
 Expect(ty, exp, av) == IF ty \in C13Types THEN C13Expect(ty, exp, av)
-                       ELSE IF ty = "shape" THEN Outcomes ELSE C19Expect(ty, exp, av)
+                       ELSE IF ty = "shape" THEN Outcomes ELSE IF IsReuse(ty) THEN {} ELSE C19Expect(ty, exp, av)
 InValues(ty, av)    == IF ty \in C13Types THEN av \in C13Values(ty)
                        ELSE IF ty = "shape" THEN av.ty \in DecodableTypes /\ av.shape \in Shapes /\ av.k \in ShapeKs
                        ELSE IF ty = "reuse" THEN av.ty \in DecodableTypes
-                       ELSE InProduct(Dom(ty), av) /\ Admit(ty, av)
+                       ELSE IF ty = "reuse.core" THEN av.ty \in ReuseCoreTypes
+                       ELSE (InProduct(Dom(ty), av) /\ Admit(ty, av)) \/ av \in LongValues(ty)
 (* which encoders / decoded views an observation of the type must contain *)
 ReuseModes == {"bytes", "tokens"}
-ReuseViews == {"zero", "fresh1", "fresh2", "reused"}
+ReuseViews == {"zero", "fresh1", "fresh2", "reused", "kept"}
 Trio    == {"marshal", "tokenreader", "trbytes", "writexml"}
 TrioDec == {"marshal/unmarshal", "tokenreader/decode", "trbytes/unmarshal", "writexml/unmarshal"}
 ReqEnc(ty, av) ==
   CASE ty \in C13Types -> C13ReqEnc(ty)
-    [] ty \in {"shape", "reuse"} -> {}
+    [] ty \in {"shape", "reuse", "reuse.core"} -> {}
     [] ty = "muc.item" -> {"marshal", "marshalptr"}                        \* struct tags only
-    [] ty = "carbons" -> {"wrap", "wrapbytes"}
+    [] ty \in {"carbons", "forward.wrap"} -> {"wrap", "wrapbytes"}
     [] ty = "forward" -> Trio \cup {"wrap", "wrapbytes"}
     [] OTHER -> Trio
 ReqDec(ty, av) ==
   CASE ty \in C13Types -> C13ReqDec(ty)
     [] ty = "shape" -> {"tokens/decode", "bytes/unmarshal"}
-    [] ty = "reuse" -> {m \o "/" \o w : m \in ReuseModes, w \in ReuseViews}
+    [] IsReuse(ty) -> {m \o "/" \o w : m \in ReuseModes, w \in ReuseViews}
     [] ty = "muc.item" -> {"marshal/unmarshal", "marshalptr/unmarshal"}
-    [] ty = "carbons" -> {"wrap/unwrap", "wrapbytes/unwrap"}
+    [] ty \in {"carbons", "forward.wrap"} -> {"wrap/unwrap", "wrapbytes/unwrap"}
     [] ty = "forward" -> TrioDec \cup {"wrap/unwrap", "wrapbytes/unwrap"}
     [] ty = "commands.response" -> {}                                      \* encode only
     [] ty = "receipts.requested" -> IF av.req THEN TrioDec ELSE {}          \* false writes no element
@@ -411,17 +516,29 @@ Encs(o) == {o.enc[i] : i \in 1..Len(o.enc)}
 Decs(o) == {o.dec[i] : i \in 1..Len(o.dec)}
 
 InDomain(o)   == IF o.ty \in KnownTypes THEN InValues(o.ty, AbsV(o.ty, o.v)) ELSE FALSE
-Complete(o)   == /\ ReqEnc(o.ty, AbsV(o.ty, o.v)) \subseteq {e.p : e \in Encs(o)}
-                 /\ ReqDec(o.ty, AbsV(o.ty, o.v)) \subseteq {d.p : d \in Decs(o)}
-(* every encoder produced something (no error, no panic) that encoding/xml's strict   *)
-(* parser reads to the end; every decoder accepted the library's own output           *)
-NoFailure(o)  == /\ \A e \in Encs(o) : e.err = "" /\ e.strict
-                 /\ \A d \in Decs(o) : d.err = ""
 AV(o)         == AbsV(o.ty, o.v)
+(* A value that holds a time the four digit year of XEP-0082 cannot carry (Stanza.tla Representable): the *)
+(* wire format has no text for it, so the round trip cannot be demanded.  An encoder may refuse the value  *)
+(* (an error), a decoder may refuse what the encoder wrote; what is not refused obeys every law - it is     *)
+(* well-formed, all views agree and name the SAME instant.  A panic is a failure for every value.          *)
+LenientObs(o) == o.ty \in C19Types /\ \E f \in TimeFields(o.ty) : ~Representable(AV(o)[f])
+(* the encodings that are the tokens of another encoder written out: absent when that encoder refused the value *)
+DerivedEnc == {"trbytes", "wrapbytes"}
+Complete(o)   == /\ (ReqEnc(o.ty, AV(o)) \ (IF LenientObs(o) THEN DerivedEnc ELSE {})) \subseteq {e.p : e \in Encs(o)}
+                 /\ LenientObs(o) \/ ReqDec(o.ty, AV(o)) \subseteq {d.p : d \in Decs(o)}
+(* every encoder produced something (no error, no panic) that encoding/xml's strict   *)
+(* parser reads to the end; every decoder accepted the library's own output.          *)
+(* e.f / d.f: "" | "error" (the call returned an error) | "panic"                     *)
+(* deviation "PanicIsAnError": a panic is taken for an ordinary error return          *)
+PanicFree(o)  == "PanicIsAnError" \in Dev \/ ((\A e \in Encs(o) : e.f # "panic") /\ (\A d \in Decs(o) : d.f # "panic"))
+NoFailure(o)  == IF LenientObs(o)
+                   THEN PanicFree(o) /\ \A e \in Encs(o) : e.err = "" => e.strict
+                   ELSE /\ \A e \in Encs(o) : e.err = "" /\ e.strict
+                        /\ \A d \in Decs(o) : d.err = ""
 View(o, d)    == AbsD(o.ty, d.exp, d.val)
 PathsAgree(o) == \A d1, d2 \in Decs(o) :
                    (d1.err = "" /\ d2.err = "" /\ d1.exp = d2.exp) => View(o, d1) = View(o, d2)
-RoundTrip(o)  == o.ty = "reuse" \/ \A d \in Decs(o) : d.err = "" => View(o, d) \in Expect(o.ty, d.exp, AV(o))
+RoundTrip(o)  == IsReuse(o.ty) \/ \A d \in Decs(o) : d.err = "" => View(o, d) \in Expect(o.ty, d.exp, AV(o))
 (* Decoding into a used receiver.  Every view is [outcome |-> "value", leaves |-> l] or [outcome |->  *)
 (* "error"]; l maps every leaf path of the projection to a SEQUENCE (a scalar is a sequence of one).  *)
 (* No decoder may panic (NoFailure).  The property does not say whether a decoder resets its         *)
@@ -434,15 +551,38 @@ IsValue(d) == d.err = "" /\ d.val.outcome = "value"
 LeafOK(z, f1, f2, r) == \/ f2 = z /\ r = f1
                         \/ SeqSet(f2) \subseteq SeqSet(r) /\ SeqSet(r) \subseteq SeqSet(f1) \cup SeqSet(f2)
 ReuseOK(o) ==
-  o.ty = "reuse" =>
+  IsReuse(o.ty) =>
     \A m \in ReuseModes :
-      ((\A w \in ReuseViews : \E d \in Decs(o) : d.p = m \o "/" \o w) /\ (\A w \in ReuseViews : IsValue(DecAt(o, m \o "/" \o w))))
+      ((\A w \in ReuseViews : \E d \in Decs(o) : d.p = m \o "/" \o w) /\ (\A w \in ReuseViews \ {"kept"} : IsValue(DecAt(o, m \o "/" \o w))))
       => LET L(w) == DecAt(o, m \o "/" \o w).val.leaves
-         IN /\ \A w \in ReuseViews : DOMAIN L(w) = DOMAIN L("reused")
+         IN /\ \A w \in ReuseViews \ {"kept"} : DOMAIN L(w) = DOMAIN L("reused")
             /\ \A f \in DOMAIN L("reused") : LeafOK(L("zero")[f], L("fresh1")[f], L("fresh2")[f], L("reused")[f])
+(* ALIASING.  View "kept": the first document is decoded into the receiver, the receiver is COPIED by assignment,  *)
+(* then the second document is decoded into the receiver and both the receiver and the copy are encoded; "kept"   *)
+(* is the copy as it is after all that.  A decoded value is a value: the copy still is what a fresh decode of the *)
+(* first document gives - whatever the second document was, whether or not it could be decoded.                    *)
+(* What an assignment shares BY THE LANGUAGE is exempt: a leaf that the type's public definition reaches through a *)
+(* pointer or a map (stanza.Error.Text is a map, paging.Set.Count / First.Index are pointers, upload.Slot holds     *)
+(* pointers and a header map) is the SAME object in the copy and in the receiver, and decoding into the receiver  *)
+(* is a mutation of the receiver.  Everything else - fields held by value and slices, which a decoder may extend   *)
+(* but whose elements the copy owns - must be untouched.  (refs: the driver's reflection found a pointer or a map  *)
+(* in the type - a declared exemption for a type without any would hide defects.)                                  *)
+SharedLeaves(ty) == CASE ty = "stanzaerror" -> {"texts"}
+                      [] ty = "paging.set" -> {"index", "count"}
+                      [] ty = "history.result" -> {"set.index", "set.count"}
+                      [] ty = "upload.slot" -> {"put", "get", "headers"}
+                      [] OTHER -> {}
+KeptOK(o) ==
+  IsReuse(o.ty) =>
+    \A m \in ReuseModes :
+      ((\E d \in Decs(o) : d.p = m \o "/fresh1") /\ (\E d \in Decs(o) : d.p = m \o "/kept") /\ IsValue(DecAt(o, m \o "/fresh1")))
+      => LET k == DecAt(o, m \o "/kept")  f1 == DecAt(o, m \o "/fresh1")  sh == SharedLeaves(o.v.ty) IN
+         /\ IsValue(k) /\ DOMAIN k.val.leaves = DOMAIN f1.val.leaves
+         /\ \A f \in DOMAIN f1.val.leaves : f \in sh \/ k.val.leaves[f] = f1.val.leaves[f]
+         /\ sh # {} => k.val.refs
 (* WellFormed is decided on the token lists by the automaton; rejected = ids of the   *)
 (* token lists the automaton did not accept                                           *)
-WellFormed(o, rejected) == \A e \in Encs(o) : e.tl \notin rejected
+WellFormed(o, rejected) == \A e \in Encs(o) : (LenientObs(o) /\ e.err # "") \/ e.tl \notin rejected
 
 Failed(o, rejected) ==
   IF ~InDomain(o) THEN {"InDomain"}
@@ -452,4 +592,5 @@ Failed(o, rejected) ==
        \cup (IF PathsAgree(o) THEN {} ELSE {"PathsAgree"})
        \cup (IF RoundTrip(o) THEN {} ELSE {"RoundTrip"})
        \cup (IF ReuseOK(o) THEN {} ELSE {"Reuse"})
+       \cup (IF KeptOK(o) THEN {} ELSE {"Kept"})
 =============================================================================
